@@ -59,14 +59,17 @@ func NewMessage(ctx context.Context) *Message {
 }
 
 func (r *Message) Context() context.Context {
+	verifOnUse(r)
 	return r.ctx
 }
 
 func (r *Message) SetContext(ctx context.Context) {
+	verifOnUse(r)
 	r.ctx = ctx
 }
 
 func (r *Message) SetMessage(message message.Message) {
+	verifOnUse(r)
 	r.Reset()
 	r.msg = message
 	if len(message.Payload) > 0 {
@@ -76,15 +79,18 @@ func (r *Message) SetMessage(message message.Message) {
 }
 
 func (r *Message) SetControlMessage(cm *net.ControlMessage) {
+	verifOnUse(r)
 	r.controlMessage = cm
 }
 
 func (r *Message) ControlMessage() *net.ControlMessage {
+	verifOnUse(r)
 	return r.controlMessage
 }
 
 // UpsertControlMessage set value only when origin value is not set.
 func (r *Message) UpsertControlMessage(cm *net.ControlMessage) {
+	verifOnUse(r)
 	if r.controlMessage != nil {
 		return
 	}
@@ -93,12 +99,14 @@ func (r *Message) UpsertControlMessage(cm *net.ControlMessage) {
 
 // SetMessageID only 0 to 2^16-1 are valid.
 func (r *Message) SetMessageID(mid int32) {
+	verifOnUse(r)
 	r.msg.MessageID = mid
 	r.isModified = true
 }
 
 // UpsertMessageID set value only when origin value is invalid. Only 0 to 2^16-1 values are valid.
 func (r *Message) UpsertMessageID(mid int32) {
+	verifOnUse(r)
 	if message.ValidateMID(r.msg.MessageID) {
 		return
 	}
@@ -107,16 +115,19 @@ func (r *Message) UpsertMessageID(mid int32) {
 
 // MessageID returns 0 to 2^16-1 otherwise it contains invalid value.
 func (r *Message) MessageID() int32 {
+	verifOnUse(r)
 	return r.msg.MessageID
 }
 
 func (r *Message) SetType(typ message.Type) {
+	verifOnUse(r)
 	r.msg.Type = typ
 	r.isModified = true
 }
 
 // UpsertType set value only when origin value is invalid. Only 0 to 2^8-1 values are valid.
 func (r *Message) UpsertType(typ message.Type) {
+	verifOnUse(r)
 	if message.ValidateType(r.msg.Type) {
 		return
 	}
@@ -124,6 +135,7 @@ func (r *Message) UpsertType(typ message.Type) {
 }
 
 func (r *Message) Type() message.Type {
+	verifOnUse(r)
 	return r.msg.Type
 }
 
@@ -149,19 +161,23 @@ func (r *Message) Reset() {
 }
 
 func (r *Message) Path() (string, error) {
+	verifOnUse(r)
 	return r.msg.Options.Path()
 }
 
 func (r *Message) Queries() ([]string, error) {
+	verifOnUse(r)
 	return r.msg.Options.Queries()
 }
 
 func (r *Message) Remove(opt message.OptionID) {
+	verifOnUse(r)
 	r.msg.Options = r.msg.Options.Remove(opt)
 	r.isModified = true
 }
 
 func (r *Message) Token() message.Token {
+	verifOnUse(r)
 	if r.msg.Token == nil {
 		return nil
 	}
@@ -171,6 +187,7 @@ func (r *Message) Token() message.Token {
 }
 
 func (r *Message) SetToken(token message.Token) {
+	verifOnUse(r)
 	if token == nil {
 		r.msg.Token = nil
 		return
@@ -179,6 +196,7 @@ func (r *Message) SetToken(token message.Token) {
 }
 
 func (r *Message) ResetOptionsTo(in message.Options) {
+	verifOnUse(r)
 	opts, used, err := r.msg.Options.ResetOptionsTo(r.valueBuffer, in)
 	if errors.Is(err, message.ErrTooSmall) {
 		r.valueBuffer = append(r.valueBuffer, make([]byte, used)...)
@@ -195,6 +213,7 @@ func (r *Message) ResetOptionsTo(in message.Options) {
 }
 
 func (r *Message) Options() message.Options {
+	verifOnUse(r)
 	return r.msg.Options
 }
 
@@ -207,6 +226,7 @@ func (r *Message) Options() message.Options {
 // If the path is too long, but not valid then the function returns
 // ErrInvalidValueLength error.
 func (r *Message) SetPath(p string) error {
+	verifOnUse(r)
 	opts, used, err := r.msg.Options.SetPath(r.valueBuffer, p)
 	if errors.Is(err, message.ErrTooSmall) {
 		expandBy, errSize := message.GetPathBufferSize(p)
@@ -227,16 +247,19 @@ func (r *Message) SetPath(p string) error {
 
 // MustSetPath calls SetPath and panics if it returns an error.
 func (r *Message) MustSetPath(p string) {
+	verifOnUse(r)
 	if err := r.SetPath(p); err != nil {
 		panic(err)
 	}
 }
 
 func (r *Message) Code() codes.Code {
+	verifOnUse(r)
 	return r.msg.Code
 }
 
 func (r *Message) SetCode(code codes.Code) {
+	verifOnUse(r)
 	r.msg.Code = code
 	r.isModified = true
 }
@@ -246,6 +269,7 @@ func (r *Message) SetCode(code codes.Code) {
 // Option definition:
 // - format: opaque, length: 1-8, repeatable
 func (r *Message) AddETag(value []byte) error {
+	verifOnUse(r)
 	if !message.VerifyOptLen(message.ETag, len(value)) {
 		return message.ErrInvalidValueLength
 	}
@@ -257,6 +281,7 @@ func (r *Message) AddETag(value []byte) error {
 //
 // After a successful call only a single ETag value will remain.
 func (r *Message) SetETag(value []byte) error {
+	verifOnUse(r)
 	if !message.VerifyOptLen(message.ETag, len(value)) {
 		return message.ErrInvalidValueLength
 	}
@@ -266,6 +291,7 @@ func (r *Message) SetETag(value []byte) error {
 
 // ETag returns first ETag value
 func (r *Message) ETag() ([]byte, error) {
+	verifOnUse(r)
 	return r.GetOptionBytes(message.ETag)
 }
 
@@ -273,18 +299,22 @@ func (r *Message) ETag() ([]byte, error) {
 //
 // Writes ETag values to output array, returns number of written values or error.
 func (r *Message) ETags(b [][]byte) (int, error) {
+	verifOnUse(r)
 	return r.GetOptionAllBytes(message.ETag, b)
 }
 
 func (r *Message) AddQuery(query string) {
+	verifOnUse(r)
 	r.AddOptionString(message.URIQuery, query)
 }
 
 func (r *Message) GetOptionUint32(id message.OptionID) (uint32, error) {
+	verifOnUse(r)
 	return r.msg.Options.GetUint32(id)
 }
 
 func (r *Message) SetOptionString(opt message.OptionID, value string) {
+	verifOnUse(r)
 	opts, used, err := r.msg.Options.SetString(r.valueBuffer, opt, value)
 	if errors.Is(err, message.ErrTooSmall) {
 		r.valueBuffer = append(r.valueBuffer, make([]byte, used)...)
@@ -299,6 +329,7 @@ func (r *Message) SetOptionString(opt message.OptionID, value string) {
 }
 
 func (r *Message) AddOptionString(opt message.OptionID, value string) {
+	verifOnUse(r)
 	opts, used, err := r.msg.Options.AddString(r.valueBuffer, opt, value)
 	if errors.Is(err, message.ErrTooSmall) {
 		r.valueBuffer = append(r.valueBuffer, make([]byte, used)...)
@@ -313,6 +344,7 @@ func (r *Message) AddOptionString(opt message.OptionID, value string) {
 }
 
 func (r *Message) AddOptionBytes(opt message.OptionID, value []byte) {
+	verifOnUse(r)
 	if len(r.valueBuffer) < len(value) {
 		r.valueBuffer = append(r.valueBuffer, make([]byte, len(value)-len(r.valueBuffer))...)
 	}
@@ -324,6 +356,7 @@ func (r *Message) AddOptionBytes(opt message.OptionID, value []byte) {
 }
 
 func (r *Message) SetOptionBytes(opt message.OptionID, value []byte) {
+	verifOnUse(r)
 	if len(r.valueBuffer) < len(value) {
 		r.valueBuffer = append(r.valueBuffer, make([]byte, len(value)-len(r.valueBuffer))...)
 	}
@@ -336,15 +369,18 @@ func (r *Message) SetOptionBytes(opt message.OptionID, value []byte) {
 
 // GetOptionBytes gets bytes of the first option with given ID.
 func (r *Message) GetOptionBytes(id message.OptionID) ([]byte, error) {
+	verifOnUse(r)
 	return r.msg.Options.GetBytes(id)
 }
 
 // GetOptionAllBytes gets array of bytes of all options with given ID.
 func (r *Message) GetOptionAllBytes(id message.OptionID, b [][]byte) (int, error) {
+	verifOnUse(r)
 	return r.msg.Options.GetBytess(id, b)
 }
 
 func (r *Message) SetOptionUint32(opt message.OptionID, value uint32) {
+	verifOnUse(r)
 	opts, used, err := r.msg.Options.SetUint32(r.valueBuffer, opt, value)
 	if errors.Is(err, message.ErrTooSmall) {
 		r.valueBuffer = append(r.valueBuffer, make([]byte, used)...)
@@ -359,6 +395,7 @@ func (r *Message) SetOptionUint32(opt message.OptionID, value uint32) {
 }
 
 func (r *Message) AddOptionUint32(opt message.OptionID, value uint32) {
+	verifOnUse(r)
 	opts, used, err := r.msg.Options.AddUint32(r.valueBuffer, opt, value)
 	if errors.Is(err, message.ErrTooSmall) {
 		r.valueBuffer = append(r.valueBuffer, make([]byte, used)...)
@@ -373,38 +410,46 @@ func (r *Message) AddOptionUint32(opt message.OptionID, value uint32) {
 }
 
 func (r *Message) ContentFormat() (message.MediaType, error) {
+	verifOnUse(r)
 	v, err := r.GetOptionUint32(message.ContentFormat)
 	return math.CastTo[message.MediaType](v), err
 }
 
 func (r *Message) HasOption(id message.OptionID) bool {
+	verifOnUse(r)
 	return r.msg.Options.HasOption(id)
 }
 
 func (r *Message) SetContentFormat(contentFormat message.MediaType) {
+	verifOnUse(r)
 	r.SetOptionUint32(message.ContentFormat, uint32(contentFormat))
 }
 
 func (r *Message) SetObserve(observe uint32) {
+	verifOnUse(r)
 	r.SetOptionUint32(message.Observe, observe)
 }
 
 func (r *Message) Observe() (uint32, error) {
+	verifOnUse(r)
 	return r.GetOptionUint32(message.Observe)
 }
 
 // SetAccept sets accept option.
 func (r *Message) SetAccept(contentFormat message.MediaType) {
+	verifOnUse(r)
 	r.SetOptionUint32(message.Accept, uint32(contentFormat))
 }
 
 // Accept gets accept option.
 func (r *Message) Accept() (message.MediaType, error) {
+	verifOnUse(r)
 	v, err := r.GetOptionUint32(message.Accept)
 	return math.CastTo[message.MediaType](v), err
 }
 
 func (r *Message) BodySize() (int64, error) {
+	verifOnUse(r)
 	if r.body == nil {
 		return 0, nil
 	}
@@ -428,19 +473,23 @@ func (r *Message) BodySize() (int64, error) {
 }
 
 func (r *Message) SetBody(s io.ReadSeeker) {
+	verifOnUse(r)
 	r.body = s
 	r.isModified = true
 }
 
 func (r *Message) Body() io.ReadSeeker {
+	verifOnUse(r)
 	return r.body
 }
 
 func (r *Message) SetSequence(seq uint64) {
+	verifOnUse(r)
 	r.sequence = seq
 }
 
 func (r *Message) Sequence() uint64 {
+	verifOnUse(r)
 	return r.sequence
 }
 
@@ -453,18 +502,22 @@ func (r *Message) IsHijacked() bool {
 }
 
 func (r *Message) IsModified() bool {
+	verifOnUse(r)
 	return r.isModified
 }
 
 func (r *Message) SetModified(b bool) {
+	verifOnUse(r)
 	r.isModified = b
 }
 
 func (r *Message) String() string {
+	verifOnUse(r)
 	return r.msg.String()
 }
 
 func (r *Message) ReadBody() ([]byte, error) {
+	verifOnUse(r)
 	if r.Body() == nil {
 		return nil, nil
 	}
@@ -504,6 +557,7 @@ func (r *Message) toMessage() (message.Message, error) {
 }
 
 func (r *Message) MarshalWithEncoder(encoder Encoder) ([]byte, error) {
+	verifOnUse(r)
 	msg, err := r.toMessage()
 	if err != nil {
 		return nil, err
@@ -538,6 +592,7 @@ func (r *Message) decode(decoder Decoder) (int, error) {
 }
 
 func (r *Message) UnmarshalWithDecoder(decoder Decoder, data []byte) (int, error) {
+	verifOnUse(r)
 	if len(r.bufferUnmarshal) < len(data) {
 		r.bufferUnmarshal = append(r.bufferUnmarshal, make([]byte, len(data)-len(r.bufferUnmarshal))...)
 	}
@@ -555,6 +610,7 @@ func (r *Message) UnmarshalWithDecoder(decoder Decoder, data []byte) (int, error
 }
 
 func (r *Message) IsSeparateMessage() bool {
+	verifOnUse(r)
 	return r.Code() == codes.Empty && r.Token() == nil && r.Type() == message.Acknowledgement && len(r.Options()) == 0 && r.Body() == nil
 }
 
@@ -566,10 +622,12 @@ func (r *Message) setupCommon(code codes.Code, path string, token message.Token,
 }
 
 func (r *Message) SetupGet(path string, token message.Token, opts ...message.Option) error {
+	verifOnUse(r)
 	return r.setupCommon(codes.GET, path, token, opts...)
 }
 
 func (r *Message) SetupPost(path string, token message.Token, contentFormat message.MediaType, payload io.ReadSeeker, opts ...message.Option) error {
+	verifOnUse(r)
 	if err := r.setupCommon(codes.POST, path, token, opts...); err != nil {
 		return err
 	}
@@ -581,6 +639,7 @@ func (r *Message) SetupPost(path string, token message.Token, contentFormat mess
 }
 
 func (r *Message) SetupPut(path string, token message.Token, contentFormat message.MediaType, payload io.ReadSeeker, opts ...message.Option) error {
+	verifOnUse(r)
 	if err := r.setupCommon(codes.PUT, path, token, opts...); err != nil {
 		return err
 	}
@@ -592,10 +651,12 @@ func (r *Message) SetupPut(path string, token message.Token, contentFormat messa
 }
 
 func (r *Message) SetupDelete(path string, token message.Token, opts ...message.Option) error {
+	verifOnUse(r)
 	return r.setupCommon(codes.DELETE, path, token, opts...)
 }
 
 func (r *Message) Clone(msg *Message) error {
+	verifOnUse(r)
 	msg.SetCode(r.Code())
 	msg.SetToken(r.Token())
 	msg.ResetOptionsTo(r.Options())
@@ -634,5 +695,6 @@ func (r *Message) Clone(msg *Message) error {
 }
 
 func (r *Message) IsPing(isTCP bool) bool {
+	verifOnUse(r)
 	return r.msg.IsPing(isTCP)
 }
